@@ -335,7 +335,13 @@ def report(prop, a, api, results, t0, seed):
                 else:
                     undecided.append((unit, f"{d['name']}: invariant not inductive (proof artefact, no violation claimed)"))
             else:
-                undecided.append((unit, f"{d['name']}: {d['verdict']} {d.get('note','')}"))
+                kf = match_known(known, d["name"], d)
+                if kf:
+                    # a path of a clause that is a listed finding: the finding-adjusted clause carries the proof
+                    known_hits.setdefault(kf["id"], (kf, d))
+                    nu -= 1
+                else:
+                    undecided.append((unit, f"{d['name']}: {d['verdict']} {d.get('note','')}"))
         n_ob += nu
         n_dis += nd
         labels[unit] = sorted(labs)
